@@ -1,8 +1,8 @@
 // C16 harness: the rate limiter driven in real time.
 //
 // Timed case: "root <cap>;use <rid> <lim> <amount>;new <parent> <cap>;setcap <lim> <cap>;close <lim>;tick;..." - limiters
-// are numbered in creation order (0 = root). The ticker period is 40 ms; operations of one phase are issued 10 ms after a
-// tick, and "tick" waits until 5 ms after the next tick before collecting the answers that arrived. After every operation:
+// are numbered in creation order (0 = root). The ticker period is 80 ms; operations of one phase are issued 20 ms after a
+// tick, and "tick" waits until 10 ms after the next tick before collecting the answers that arrived. After every operation:
 // "<rid>=<G|N|C|X>,...|<lastUsed>:<closed>:<cap with parents>,..." (answers sorted by request id; G granted, N negative,
 // C over capacity, X closed). Every case ends by closing the root, which must answer every pending request.
 //
@@ -21,7 +21,7 @@ import (
 	"verifharness/hx"
 )
 
-const period = 40 * time.Millisecond
+const period = 80 * time.Millisecond
 
 func kind(err error) string {
 	switch {
@@ -161,7 +161,7 @@ func run(c string) (obs string) {
 		case "root":
 			lims = append(lims, rate.New(hx.Atoi(f[1]), period))
 			t0 = time.Now()
-			sleepUntil(t0.Add(10 * time.Millisecond))
+			sleepUntil(t0.Add(20 * time.Millisecond))
 			continue
 		case "use":
 			l := hx.Atoi(f[2])
@@ -203,9 +203,9 @@ func run(c string) (obs string) {
 			out = append(out, collect(nil))
 		case "tick":
 			ticks++
-			sleepUntil(t0.Add(time.Duration(ticks)*period + 5*time.Millisecond))
-			out = append(out, collect(nil))
 			sleepUntil(t0.Add(time.Duration(ticks)*period + 10*time.Millisecond))
+			out = append(out, collect(nil))
+			sleepUntil(t0.Add(time.Duration(ticks)*period + 20*time.Millisecond))
 		default:
 			return "BADCASE"
 		}
